@@ -29,7 +29,7 @@ type Case struct {
 	PerWriter  int    `json:"msgs_per_writer"`
 	OutSizes   []int  `json:"out_sizes"`
 	WriteFrom  string `json:"write_from"` // open, first-message
-	Ending     string `json:"ending"`     // client-close, client-cut, server-close
+	Ending     string `json:"ending"`     // client-close, client-cut, server-close, client-reset
 }
 
 const frameHdr = 12
@@ -154,6 +154,14 @@ func startServer(c Case) (*wsServer, error) {
 			startWriters(wc)
 		}
 		time.Sleep(50 * time.Microsecond)
+		if c.Ending == "client-reset" && e.seq == len(c.InSizes) {
+			// the trigger message of the "client-reset" ending: a long-running handler that keeps writing
+			// while the client resets the connection, so that the server's writes fail under its feet
+			for i := 0; i < 60; i++ {
+				_ = wc.WriteMessage(websocket.PongMessage, make([]byte, 100))
+				time.Sleep(time.Millisecond)
+			}
+		}
 		s.log.add(event{k: "msg-end", seq: e.seq})
 		atomic.AddInt32(&s.log.inflight, -1)
 	})
@@ -343,6 +351,18 @@ func runCase(c Case) vlib.Result {
 		defer rmu.Unlock()
 		return len(received) >= expectOut || wireErr != ""
 	})
+	// the client sees the 101 response before the server side has necessarily run its open callback
+	// (it runs after the response was written): the ending below must not overtake it
+	vlib.WaitUntil(5*time.Second, func() bool {
+		s.log.mu.Lock()
+		defer s.log.mu.Unlock()
+		for _, e := range s.log.ev {
+			if e.k == "open-end" {
+				return true
+			}
+		}
+		return false
+	})
 	atomic.StoreInt32(&s.ending, 1)
 	switch c.Ending {
 	case "client-close":
@@ -357,6 +377,27 @@ func runCase(c Case) vlib.Result {
 		if wc := s.conn.Load(); wc != nil {
 			_ = wc.Close()
 		}
+	case "client-reset":
+		// one more message whose handler runs for >= 60 ms and keeps writing; once it has started, the
+		// client resets the connection (RST), so the server-side writes fail while the handler runs
+		trig := len(c.InSizes)
+		if err := cl.WriteMessage(vlib.OpBin, inPayload(trig, 64)); err == nil {
+			sent++
+			vlib.WaitUntil(5*time.Second, func() bool {
+				s.log.mu.Lock()
+				defer s.log.mu.Unlock()
+				for _, e := range s.log.ev {
+					if e.k == "msg-start" && e.seq == trig {
+						return true
+					}
+				}
+				return false
+			})
+		}
+		if tc, ok := conn.(*net.TCPConn); ok {
+			_ = tc.SetLinger(0)
+		}
+		_ = conn.Close()
 	}
 	closedSeen := vlib.WaitUntil(5*time.Second, func() bool {
 		s.log.mu.Lock()
@@ -483,6 +524,8 @@ func cells() []Case {
 			for _, m := range vlib.Modes {
 				out = append(out, Case{Path: p, AsyncWrite: aw, Mode: m, FrameLimit: 1000, OpenUs: 2000, InSizes: []int{8, 5000, 100, 70000, 8}, Writers: 4, PerWriter: 12,
 					OutSizes: []int{12, 999, 1000, 1001, 2500, 12000}, WriteFrom: "open", Ending: "client-close"})
+				out = append(out, Case{Path: p, AsyncWrite: aw, Mode: m, FrameLimit: 1000, OpenUs: 100, InSizes: []int{8, 100}, Writers: 1, PerWriter: 3,
+					OutSizes: []int{12, 2500}, WriteFrom: "open", Ending: "client-reset"})
 			}
 		}
 	}
@@ -505,14 +548,14 @@ func gen(t *rapid.T) Case {
 		c.OutSizes = append(c.OutSizes, rapid.SampledFrom([]int{12, c.FrameLimit - 1, c.FrameLimit, c.FrameLimit + 1, 2*c.FrameLimit + 1, 5 * c.FrameLimit, 70000}).Draw(t, "outsize"))
 	}
 	c.WriteFrom = rapid.SampledFrom([]string{"open", "first-message"}).Draw(t, "writefrom")
-	c.Ending = rapid.SampledFrom([]string{"client-close", "client-cut", "server-close"}).Draw(t, "ending")
+	c.Ending = rapid.SampledFrom([]string{"client-close", "client-cut", "server-close", "client-reset"}).Draw(t, "ending")
 	return c
 }
 
 func TestCheck(t *testing.T) {
 	r := vlib.NewRunner(t, "C14")
 	vlib.RunCases(r, "cells", cells(), runCase, true)
-	r.MarkExhaustive("matrix cells upgrade path x send mode x epoll mode (30 cells, one fixed workload each)")
+	r.MarkExhaustive("matrix cells upgrade path x send mode x epoll mode (30 cells, two fixed workloads each: orderly close, and client reset while a handler runs and writes)")
 	vlib.RunCheck(r, vlib.Check[Case]{Name: "sessions", N: r.Pick(900, 12000), Gen: gen, Run: runCase, Confirm: true, RecordCurrent: true})
 	r.Finish()
 }
